@@ -442,3 +442,65 @@ func C19StaggeredCalls() {
 	sym.Assert(rb.err == nil && len(rb.payload) == 1 && rb.payload[0] == 0xB0, "staggered/second-call-disturbed-by-the-first-one-returning")
 	sym.Reach("staggered-done")
 }
+
+// C04SessionObjects: two proxies of the SAME remote object obtained from one session by reference
+// (what generated code does with an object reference it receives) issue overlapping calls of the
+// same method with different arguments over the pooled connection: each caller gets the answer
+// computed from its own arguments (the two call frames must be told apart by their ids).
+func C04SessionObjects() {
+	var streams []*zzStream
+	sym.Replace("github.com/lugu/qiloop/bus.SelectEndPoint", func(addrs []string, user, token string) (string, bus.Channel, error) {
+		st := newZZStream()
+		streams = append(streams, st)
+		return addrs[0], bus.NewChannel(net.NewEndPoint(st), bus.DefaultCap()), nil
+	})
+	info := services.ServiceInfo{Name: "a", ServiceId: 2, Endpoints: []string{"tcp://one"}}
+	s := &Session{poll: map[string]bus.Client{}, serviceList: []services.ServiceInfo{info}}
+	ref := object.ObjectReference{ServiceID: 2, ObjectID: 7, MetaObject: object.MetaObject{}}
+	type res struct {
+		payload []byte
+		err     error
+	}
+	out := make([]chan res, 2)
+	for i := 0; i < 2; i++ {
+		out[i] = make(chan res, 1)
+		go func(i int) {
+			p, err := s.Object(ref)
+			if err != nil {
+				out[i] <- res{nil, err}
+				return
+			}
+			r, err := p.CallID(100, []byte{byte(0xA0 + i)})
+			out[i] <- res{r, err}
+		}(i)
+	}
+	sym.Quiesce()
+	sym.Assert(len(streams) >= 1, "session-objects/dialled")
+	if len(streams) == 0 {
+		return
+	}
+	st := streams[0]
+	for _, x := range streams {
+		if !x.isClosed() {
+			st = x
+		}
+	}
+	calls := st.sentMessages()
+	sym.Assert(len(calls) == 2, "session-objects/frames-on-the-pooled-connection")
+	if len(calls) != 2 {
+		return
+	}
+	sym.Assert(calls[0].Header.ID != calls[1].Header.ID, "session-objects/message-ids-distinct")
+	for _, f := range calls {
+		h := f.Header
+		h.Type = net.Reply
+		st.inject(net.NewMessage(h, f.Payload))
+	}
+	sym.Quiesce()
+	for i := 0; i < 2; i++ {
+		r := <-out[i]
+		sym.Assert(r.err == nil, "session-objects/call-failed")
+		sym.Assert(len(r.payload) == 1 && r.payload[0] == byte(0xA0+i), "session-objects/answer-of-another-call")
+	}
+	sym.Reach("session-objects-done")
+}
